@@ -15,12 +15,14 @@ mod net;
 mod rtrcodec;
 mod scenario;
 mod tape;
+mod source;
 mod c07;
+mod c08;
 
 use scenario::{Scenario, Tier};
 
 fn scenarios() -> Vec<Box<dyn Scenario>> {
-    vec![Box::new(c07::C07)]
+    vec![Box::new(c07::C07), Box::new(c08::C08)]
 }
 
 fn main() {
